@@ -8,6 +8,9 @@ from concurrent.futures import ThreadPoolExecutor
 kf = json.load(open("/verif/known_findings.json"))["findings"]
 want = set(sys.argv[1:])
 ents = [f for f in kf if f.get("kind") == "fixed" and f.get("commit") and f.get("replay") and (not want or f["id"] in want)]
+# behaviours guarded in two layers by two fixes: reverting one commit alone shows nothing, so these
+# entries are also tried with the sibling fix reverted as well
+ALSO = {"C04-F1": ["bdb2201"], "C04-F2": ["bdb2201"], "C04-F3": ["9b93b4a"]}
 def sh(cmd, cwd=None, env=None, timeout=1500):
     r = subprocess.run(cmd, shell=True, cwd=cwd, env=env, stdout=subprocess.PIPE, stderr=subprocess.STDOUT, text=True, errors="replace", timeout=timeout)
     return r.returncode, r.stdout
@@ -26,6 +29,13 @@ def one(f):
             return f["id"], "ok (reproducer fails without the fix)"
         if rc == 2 or "INCONCLUSIVE" in out:
             return f["id"], "inconclusive: " + out[-200:].replace("\n", " | ")
+        for extra in ALSO.get(f["id"], []):
+            rc, out = sh("git revert --no-commit %s" % extra, cwd=wt)
+            if rc != 0:
+                break
+            rc, out = sh("./check replay %s %s" % (f["property"], f["replay"]), cwd="/verif", env=dict(os.environ, VERIF_REPO=wt))
+            if "VIOLATION" in out:
+                return f["id"], "ok with %s reverted too (two-layer guard: reproducer passes with %s reverted alone)" % (extra, f["commit"])
         return f["id"], "STALE: reproducer passes with %s reverted" % f["commit"]
     finally:
         sh("git revert --abort", cwd=wt)
